@@ -41,7 +41,9 @@ def s_axis_map(draw, Ns, Nd, klass, ttol, stol):
         s = float(k) if draw(st.booleans()) else 1.0 / k
     elif klass == "scale_near":
         k = draw(st.sampled_from([1, 2, 3]))
-        s = k * (1 + draw(st.sampled_from([0.5, -0.5, 2.0, -2.0, -0.25, 0.25, -0.9])) * stol)
+        # (k=2,3: +0.75 / +0.6 put the scale between k+stol and k+k*stol - outside the tolerance on the scale itself,
+        # inside a tolerance applied after dividing by the read-shrink)
+        s = k * (1 + draw(st.sampled_from([0.5, -0.5, 2.0, -2.0, -0.25, 0.25, -0.9, 0.75, 0.6])) * stol)
     else:  # scale_frac
         s = draw(st.sampled_from([1.5, 0.7, 2.5, 1.25, 0.4]))
     length = s * Nd
